@@ -1,6 +1,7 @@
 // Unit `cob_auth` (C07): issue authorization rules and the Allow/Deny/Unknown dispatch.
 // Real code: Issue::authorization, Issue::op_action (crates/radicle/src/cob/issue.rs),
 // Authorization (cob/common.rs).
+#![feature(allocator_api)]
 use vstd::prelude::*;
 use std::collections::{BTreeMap, BTreeSet};
 //@include _prelude.rs
@@ -29,6 +30,11 @@ pub proof fn ids_lawful()
         forall|a: ActorId, b: ActorId| #[trigger] vstd::std_specs::cmp::PartialEqSpec::eq_spec(&a, &b) <==> a == b,
         vstd::laws_cmp::obeys_cmp_spec::<CommentId>(),
 {}
+/// ASSUMED (alloc): BTreeSet::{is_subset, is_superset, is_empty-free} relate the set views
+pub assume_specification<T: Ord, A: std::alloc::Allocator + Clone>[BTreeSet::<T, A>::is_subset](a: &BTreeSet<T, A>, b: &BTreeSet<T, A>) -> (r: bool)
+    ensures vstd::laws_cmp::obeys_cmp_spec::<T>() ==> r == a@.subset_of(b@);
+pub assume_specification<T: Ord, A: std::alloc::Allocator + Clone>[BTreeSet::<T, A>::is_superset](a: &BTreeSet<T, A>, b: &BTreeSet<T, A>) -> (r: bool)
+    ensures vstd::laws_cmp::obeys_cmp_spec::<T>() ==> r == b@.subset_of(a@);
 /// stand-in for `a == &b` on BTreeSet (PartialEq for BTreeSet is outside vstd): ASSUMED to be set equality
 #[verifier::external_body]
 pub fn vx_set_eq<T>(a: &BTreeSet<T>, b: &BTreeSet<T>) -> (r: bool) ensures r == (a@ == b@) { unimplemented!() }
